@@ -1,2 +1,1166 @@
-// Package c06: check for property C06 (see /verif/DESIGN.md §3 C06).
+// Package c06: type inference from data follows the documented number grammar
+// exactly. Bounded exhaustive enumeration of strings over the numeric alphabet
+// (plus a generated boundary list), every string classified by the real
+// inferrer in each of the four inference modes and compared with a hand-written
+// reference recogniser (ref.go); a smaller in-process CLI pass binds the
+// classification to typeof / is_* / asserting_* / arithmetic / sort -n, to the
+// DKVP, CSV, JSON-number and JSON-string positions, and to DSL literals.
 package c06
+
+import (
+	"encoding/json"
+	"fmt"
+	"math"
+	"sort"
+	"strconv"
+	"strings"
+	"time"
+
+	"github.com/johnkerl/miller/v6/pkg/bifs"
+	"github.com/johnkerl/miller/v6/pkg/mlrval"
+
+	"verif/harness/vf"
+)
+
+func init() {
+	vf.Register(&vf.CheckDef{ID: "C06", Level: "model_checking", Run: run,
+		Workers: map[string]vf.WorkerFunc{"bulk": bulkWorker, "cli": cliWorker}})
+}
+
+// ---------------------------------------------------------------- alphabets and blocks
+
+// 23 symbols: digits thinned to those that distinguish binary/octal/decimal,
+// a f F for hex, sign, point, exponent, the three radix letters in both cases,
+// digit separator, space, and i n (inf/nan prefixes).
+var alpha23 = []byte("01789+-.eExXoObBafF_ in")
+
+// 11 symbols, all of them meaningful inside some numeric form: used beyond the
+// length bound of the 23-symbol alphabet.
+var alpha11 = []byte("0178+-.exob")
+
+type block struct {
+	alpha  []byte
+	length int   // string length; -1: all lengths 0..3 over alpha; -2: boundary chunk
+	prefix []int // fixed leading symbol indexes
+	lo, hi int   // boundary chunk range
+	deep   bool  // also run the direct agreement clause and the JSON-string position
+}
+
+const boundaryChunk = 1024
+
+func allPrefixes(n, k int) [][]int {
+	out := [][]int{{}}
+	for i := 0; i < k; i++ {
+		var nx [][]int
+		for _, p := range out {
+			for s := 0; s < n; s++ {
+				q := append(append([]int{}, p...), s)
+				nx = append(nx, q)
+			}
+		}
+		out = nx
+	}
+	return out
+}
+
+type bounds struct {
+	full23, deep23, max11, nBoundary int
+}
+
+func tierBounds(quick bool) bounds {
+	if quick {
+		return bounds{full23: 5, deep23: 4, max11: 7}
+	}
+	return bounds{full23: 6, deep23: 5, max11: 8}
+}
+
+// thorough only, run when the time budget allows: one more length over the 11-symbol alphabet
+const extLen11 = 9
+
+func extBlocks() []block {
+	var out []block
+	for _, p := range allPrefixes(len(alpha11), 3) {
+		out = append(out, block{alpha: alpha11, length: extLen11, prefix: p})
+	}
+	return out
+}
+
+func blocks(quick bool) []block {
+	b := tierBounds(quick)
+	var out []block
+	out = append(out, block{alpha: alpha23, length: -1, deep: true})
+	for L := 4; L <= b.full23; L++ {
+		k := 1
+		if L >= 5 {
+			k = 2
+		}
+		for _, p := range allPrefixes(len(alpha23), k) {
+			out = append(out, block{alpha: alpha23, length: L, prefix: p, deep: L <= b.deep23})
+		}
+	}
+	for L := b.full23 + 1; L <= b.max11; L++ {
+		k := 1
+		if L >= 7 {
+			k = 2
+		}
+		for _, p := range allPrefixes(len(alpha11), k) {
+			out = append(out, block{alpha: alpha11, length: L, prefix: p})
+		}
+	}
+	n := len(boundaryAll())
+	for lo := 0; lo < n; lo += boundaryChunk {
+		hi := lo + boundaryChunk
+		if hi > n {
+			hi = n
+		}
+		out = append(out, block{length: -2, lo: lo, hi: hi, deep: true})
+	}
+	return out
+}
+
+var boundaryCache []string
+
+// boundaryAll = CLI-safe boundary list followed by the direct-only strings.
+func boundaryAll() []string {
+	if boundaryCache == nil {
+		boundaryCache = append(append([]string{}, boundaryList(true)...), directOnlyList()...)
+	}
+	return boundaryCache
+}
+
+func enumBlock(b block, f func(s string)) {
+	switch b.length {
+	case -1:
+		for L := 0; L <= 3; L++ {
+			enumFixed(b.alpha, L, nil, f)
+		}
+	case -2:
+		all := boundaryAll()
+		for _, s := range all[b.lo:b.hi] {
+			f(s)
+		}
+	default:
+		enumFixed(b.alpha, b.length, b.prefix, f)
+	}
+}
+
+func enumFixed(alpha []byte, L int, prefix []int, f func(s string)) {
+	buf := make([]byte, L)
+	ix := make([]int, L)
+	for i, p := range prefix {
+		ix[i] = p
+		buf[i] = alpha[p]
+	}
+	k0 := len(prefix)
+	for i := k0; i < L; i++ {
+		buf[i] = alpha[0]
+	}
+	for {
+		f(string(buf))
+		i := L - 1
+		for ; i >= k0; i-- {
+			ix[i]++
+			if ix[i] < len(alpha) {
+				buf[i] = alpha[ix[i]]
+				break
+			}
+			ix[i] = 0
+			buf[i] = alpha[0]
+		}
+		if i < k0 {
+			return
+		}
+	}
+}
+
+// ---------------------------------------------------------------- modes
+
+func setMode(mode int) {
+	mlrval.VerifResetGlobals()
+	switch mode {
+	case modeS:
+		mlrval.SetInferrerStringOnly()
+	case modeA:
+		mlrval.SetInferrerIntAsFloat()
+	case modeO:
+		mlrval.SetInferrerOctalAsInt()
+	}
+}
+
+// ---------------------------------------------------------------- comparing a real value with the reference
+
+func describe(mv *mlrval.Mlrval) string {
+	switch mv.Type() {
+	case mlrval.MT_INT:
+		v, _ := mv.GetIntValue()
+		return fmt.Sprintf("int %d", v)
+	case mlrval.MT_FLOAT:
+		v, _ := mv.GetFloatValue()
+		return "float " + strconv.FormatFloat(v, 'g', -1, 64)
+	case mlrval.MT_VOID:
+		return "empty"
+	case mlrval.MT_STRING:
+		return "string"
+	}
+	return mv.GetTypeName()
+}
+
+func (c cls) String() string {
+	switch c.kind {
+	case kInt:
+		return fmt.Sprintf("int %d", c.i)
+	case kFloat:
+		return "float " + strconv.FormatFloat(c.f, 'g', -1, 64)
+	case kNumAny:
+		return fmt.Sprintf("int %d or float %s", c.i, strconv.FormatFloat(c.f, 'g', -1, 64))
+	case kFree:
+		return "unconstrained (" + c.why + ")"
+	}
+	return c.kind.String()
+}
+
+// conforms: does the real value have the documented type and value?
+func conforms(exp cls, mv *mlrval.Mlrval) bool {
+	t := mv.Type()
+	switch exp.kind {
+	case kString:
+		return t == mlrval.MT_STRING
+	case kEmpty:
+		return t == mlrval.MT_VOID
+	case kInt:
+		v, ok := mv.GetIntValue()
+		return t == mlrval.MT_INT && ok && v == exp.i
+	case kFloat:
+		v, ok := mv.GetFloatValue()
+		return t == mlrval.MT_FLOAT && ok && v == exp.f
+	case kNumAny:
+		if v, ok := mv.GetIntValue(); ok && t == mlrval.MT_INT {
+			return v == exp.i
+		}
+		if v, ok := mv.GetFloatValue(); ok && t == mlrval.MT_FLOAT {
+			return v == exp.f
+		}
+		return false
+	case kFree:
+		return t == mlrval.MT_STRING || t == mlrval.MT_INT || t == mlrval.MT_FLOAT
+	case kBool:
+		return t == mlrval.MT_BOOL
+	}
+	return false
+}
+
+func group(exp cls) string {
+	switch exp.cat {
+	case catBigDec:
+		return "bigdec"
+	case catMinIntBas:
+		return "minint"
+	}
+	return "infer"
+}
+
+func q(s string) string { return strconv.QuoteToASCII(s) }
+
+// kind observed on the real value, for consistency-only assertions
+func kindOf(mv *mlrval.Mlrval) kind {
+	switch mv.Type() {
+	case mlrval.MT_INT:
+		return kInt
+	case mlrval.MT_FLOAT:
+		return kFloat
+	case mlrval.MT_VOID:
+		return kEmpty
+	case mlrval.MT_STRING:
+		return kString
+	case mlrval.MT_BOOL:
+		return kBool
+	}
+	return kFree
+}
+
+// ---------------------------------------------------------------- bulk worker (direct calls)
+
+type bulkState struct {
+	w        *vf.Worker
+	mode     int
+	deep     bool
+	sym      [256]int64
+	symNum   [256]int64
+	cat      [nCats]int64
+	free     [nCats]int64
+	pos      map[string]int64
+	out      map[string]bool
+	zero     *mlrval.Mlrval
+	void     *mlrval.Mlrval
+	cur      string
+	nStrings int64
+}
+
+func jsonSafe(s string) bool {
+	for i := 0; i < len(s); i++ {
+		if s[i] < 0x20 || s[i] == '"' || s[i] == '\\' || s[i] >= 0x7f {
+			return false
+		}
+	}
+	return true
+}
+
+func (st *bulkState) viol(grp, pos, s string, exp cls, got string) {
+	m := modeNames[st.mode]
+	st.w.Violation(fmt.Sprintf("%s:%s:%s:%s", grp, m, pos, q(s)),
+		fmt.Sprintf("mode %s, %s position: %s infers as %s; documented grammar: %s [%s]", m, pos, q(s), got, exp, catNames[exp.cat]),
+		map[string]any{"mode": m, "position": pos, "value": s, "expected": exp.String(), "got": got, "category": catNames[exp.cat],
+			"reproduce": fmt.Sprintf("printf 'x=%%s\\n' %s | mlr %s put '$t=typeof($x);$v=$x+0'", q(s), strings.TrimSpace(strings.Replace(m, "default", "", 1)))})
+}
+
+func (st *bulkState) safeEval(s string) {
+	defer func() {
+		if r := recover(); r != nil {
+			st.w.Violation(fmt.Sprintf("panic:%s:%s", modeNames[st.mode], q(s)), fmt.Sprintf("mode %s: inferring %s panics: %v", modeNames[st.mode], q(s), r),
+				map[string]any{"mode": modeNames[st.mode], "value": s, "panic": fmt.Sprint(r)})
+		}
+	}()
+	st.evalOne(s)
+}
+
+func (st *bulkState) evalOne(s string) {
+	w := st.w
+	st.nStrings++
+	exp := classify(s, st.mode)
+	// --- data position
+	mv := mlrval.FromDeferredType(s)
+	ok := conforms(exp, mv)
+	w.Eval(1)
+	st.pos["data"]++
+	st.cat[exp.cat]++
+	nontrivial := exp.kind != kString || (len(s) > 0 && (isDec(s[0]) || s[0] == '+' || s[0] == '-' || s[0] == '.'))
+	if nontrivial {
+		w.Nontrivial(1)
+	}
+	numeric := exp.kind == kInt || exp.kind == kFloat || exp.kind == kNumAny
+	for i := 0; i < len(s); i++ {
+		st.sym[s[i]]++
+		if numeric {
+			st.symNum[s[i]]++
+		}
+	}
+	if exp.kind == kFree {
+		st.free[exp.cat]++
+	}
+	if !ok {
+		st.viol(group(exp), "data", s, exp, describe(mv))
+	}
+	if mv.String() != s {
+		st.viol("spelling", "data", s, exp, "value whose string form is "+q(mv.String()))
+	}
+	if exp.kind != kString || mv.Type() != mlrval.MT_STRING {
+		st.out[modeNames[st.mode]+":data:"+catNames[exp.cat]+"->"+mv.GetTypeName()] = true
+	}
+	if exp.kind == kFloat && st.mode != modeA {
+		// guard on the reference itself: its exact-rational rounding must agree with strconv on this spelling
+		if f, err := strconv.ParseFloat(s, 64); err == nil && f != exp.f {
+			w.Broken("reference model: %q rounds to %v by big.Rat but strconv gives %v", s, exp.f, f)
+		}
+	}
+	// --- JSON number position
+	if validJSONNumber(s) {
+		jv, err := mlrval.TryUnmarshalJSON([]byte(s))
+		w.Eval(1)
+		st.pos["json-number"]++
+		if nontrivial {
+			w.Nontrivial(1)
+		}
+		if err != nil || jv == nil {
+			st.viol("json", "json-number", s, exp, fmt.Sprintf("decode error %v", err))
+		} else {
+			if !conforms(exp, jv) {
+				st.viol(group(exp), "json-number", s, exp, describe(jv))
+			}
+			if jv.String() != s {
+				st.viol("spelling", "json-number", s, exp, "value whose string form is "+q(jv.String()))
+			}
+			st.out[modeNames[st.mode]+":json-number:"+catNames[exp.cat]+"->"+jv.GetTypeName()] = true
+		}
+	}
+	if !st.deep {
+		return
+	}
+	// --- JSON string position: never inferred, whatever the mode
+	{
+		var doc []byte
+		if jsonSafe(s) {
+			doc = []byte(`"` + s + `"`)
+		} else if b, err := json.Marshal(s); err == nil && strings.ToValidUTF8(s, "") == s {
+			doc = b
+		}
+		if doc != nil {
+			jv, err := mlrval.TryUnmarshalJSON(doc)
+			w.Eval(1)
+			st.pos["json-string"]++
+			if nontrivial {
+				w.Nontrivial(1)
+			}
+			want := cls{kind: kString}
+			if s == "" {
+				want = cls{kind: kEmpty, cat: catEmpty}
+			}
+			if err != nil || jv == nil {
+				st.viol("json", "json-string", s, want, fmt.Sprintf("decode error %v", err))
+			} else if !conforms(want, jv) || jv.String() != s {
+				st.viol("jsonstring", "json-string", s, want, describe(jv)+" "+q(jv.String()))
+			}
+		}
+	}
+	// --- agreement clause, direct: every accessor is exercised on a fresh (still pending) value
+	fresh := func() *mlrval.Mlrval { return mlrval.FromDeferredType(s) }
+	k := kindOf(mv) // agreement is with the single classification the inferrer made (its conformance to the grammar is judged above)
+	w.Eval(1)
+	st.pos["agreement-direct"]++
+	bad := func(fn string, got any, want any) {
+		m := modeNames[st.mode]
+		w.Violation(fmt.Sprintf("agree:%s:%s:%s", m, fn, q(s)), fmt.Sprintf("mode %s: %s(%s) = %v but the value classifies as %s (expected %v)", m, fn, q(s), got, k, want),
+			map[string]any{"mode": m, "function": fn, "value": s, "classification": k.String(), "got": fmt.Sprint(got), "expected": fmt.Sprint(want)})
+	}
+	if tn := bifs.BIF_typeof(fresh()).String(); tn != k.String() {
+		bad("typeof", tn, k.String())
+	}
+	type pred struct {
+		name string
+		fn   func(*mlrval.Mlrval) *mlrval.Mlrval
+		want bool
+	}
+	isNum := k == kInt || k == kFloat
+	for _, p := range []pred{
+		{"is_int", bifs.BIF_is_int, k == kInt},
+		{"is_float", bifs.BIF_is_float, k == kFloat},
+		{"is_numeric", bifs.BIF_is_numeric, isNum},
+		{"is_string", bifs.BIF_is_string, k == kString || k == kEmpty},
+		{"is_empty", bifs.BIF_is_empty, k == kEmpty},
+		{"is_not_empty", bifs.BIF_is_notempty, k != kEmpty},
+		{"is_null", bifs.BIF_is_null, k == kEmpty},
+		{"is_not_null", bifs.BIF_is_notnull, k != kEmpty},
+		{"is_present", bifs.BIF_is_present, true},
+		{"is_absent", bifs.BIF_is_absent, false},
+		{"is_error", bifs.BIF_is_error, false},
+		{"is_boolean", bifs.BIF_is_boolean, false},
+		{"is_map", bifs.BIF_is_map, false},
+		{"is_nan", bifs.BIF_is_nan, false},
+	} {
+		r := p.fn(fresh())
+		b, isb := r.GetBoolValue()
+		if !isb || b != p.want {
+			bad(p.name, r.String(), p.want)
+		}
+	}
+	// arithmetic: $x + 0 keeps type and value of a number, is an error for a string
+	sum := bifs.BIF_plus_binary(fresh(), st.zero)
+	switch k {
+	case kInt:
+		iv, _ := mv.GetIntValue()
+		if v, ok := sum.GetIntValue(); !ok || v != iv {
+			bad("plus0", describe(sum), fmt.Sprintf("int %d", iv))
+		}
+	case kFloat:
+		fv, _ := mv.GetFloatValue()
+		if v, ok := sum.GetFloatValue(); !ok || v != fv {
+			bad("plus0", describe(sum), "float "+strconv.FormatFloat(fv, 'g', -1, 64))
+		}
+	case kString:
+		if !sum.IsError() {
+			bad("plus0", describe(sum), "error")
+		}
+	}
+	// dot: spelling preserved
+	if d := bifs.BIF_dot(fresh(), st.void); d.String() != s {
+		bad("dot", q(d.String()), q(s))
+	}
+	// collation used by sort -nf: numbers order numerically among themselves
+	if isNum {
+		fv, _ := mv.GetNumericToFloatValue()
+		if !math.IsInf(fv, 0) && !math.IsNaN(fv) {
+			lo, hi := sentinels(mv)
+			if lo != nil && mlrval.NumericAscendingComparator(fresh(), lo) <= 0 {
+				bad("numeric-collation", "not above "+lo.String(), "above")
+			}
+			if hi != nil && mlrval.NumericAscendingComparator(fresh(), hi) >= 0 {
+				bad("numeric-collation", "not below "+hi.String(), "below")
+			}
+		}
+	}
+}
+
+// sentinels returns numbers strictly below and above the (finite) numeric value of mv.
+func sentinels(mv *mlrval.Mlrval) (lo, hi *mlrval.Mlrval) {
+	if iv, ok := mv.GetIntValue(); ok {
+		if iv > math.MinInt64 {
+			lo = mlrval.FromInt(iv - 1)
+		} else {
+			lo = mlrval.FromFloat(-1e19)
+		}
+		if iv < math.MaxInt64 {
+			hi = mlrval.FromInt(iv + 1)
+		} else {
+			hi = mlrval.FromFloat(1e19)
+		}
+		return
+	}
+	fv, _ := mv.GetFloatValue()
+	d := math.Abs(fv)/2 + 1
+	if l := fv - d; !math.IsInf(l, 0) {
+		lo = mlrval.FromFloat(l)
+	}
+	if h := fv + d; !math.IsInf(h, 0) {
+		hi = mlrval.FromFloat(h)
+	}
+	return
+}
+
+func bulkWorker(w *vf.Worker) {
+	bl := blocks(w.Quick())
+	var a struct{ Part string }
+	json.Unmarshal(w.Args, &a)
+	if a.Part == "ext" {
+		bl = extBlocks()
+	}
+	st := &bulkState{w: w, pos: map[string]int64{}, out: map[string]bool{}, zero: mlrval.FromInt(0), void: mlrval.FromString("")}
+	modeHits := [nModes]int64{}
+	for bi, b := range bl {
+		for mode := 0; mode < nModes; mode++ {
+			idx := uint64(bi*nModes + mode)
+			if !w.Mine(idx) {
+				continue
+			}
+			w.Begin(idx)
+			b := b
+			w.Label(func() string {
+				return fmt.Sprintf("mode %s block %d (len %d prefix %v alpha %q)", modeNames[mode], bi, b.length, b.prefix, string(b.alpha))
+			})
+			setMode(mode)
+			st.mode, st.deep = mode, b.deep
+			before := st.nStrings
+			enumBlock(b, st.safeEval)
+			modeHits[mode] += st.nStrings - before
+		}
+	}
+	setMode(modeDefault)
+	for c := 0; c < 256; c++ {
+		if st.sym[c] > 0 {
+			w.Count("symbol-occurrences:"+q(string(rune(c))), st.sym[c])
+			w.Count("symbol-occurrences-in-numeric:"+q(string(rune(c))), st.symNum[c])
+		}
+	}
+	for c := 0; c < nCats; c++ {
+		if st.cat[c] > 0 {
+			w.Count("category:"+catNames[c], st.cat[c])
+		}
+		if st.free[c] > 0 {
+			w.Count("unconstrained:"+catNames[c], st.free[c])
+		}
+	}
+	for m := 0; m < nModes; m++ {
+		if modeHits[m] > 0 {
+			w.Count("mode:"+modeNames[m], modeHits[m])
+		}
+	}
+	for p, n := range st.pos {
+		w.Count("position:"+p, n)
+	}
+	w.Count("strings-x-modes", st.nStrings)
+	for o := range st.out {
+		w.AddSet("outcomes", o)
+	}
+	if w.Shard == 0 {
+		w.Sample(map[string]any{"value": "0x8000000000000000", "mode": "default", "expected": classify("0x8000000000000000", modeDefault).String()})
+		w.Sample(map[string]any{"value": "0789", "mode": "-O", "expected": classify("0789", modeO).String()})
+	}
+}
+
+// ---------------------------------------------------------------- CLI worker (in-process mlr)
+
+var modeFlags = [nModes][]string{{""}, {"-S", "--infer-none"}, {"-A", "--infer-int-as-float"}, {"-O", "--infer-octal"}}
+
+const cliChunk = 48
+
+func cliStrings(quick bool) []string {
+	seen := map[string]bool{}
+	var out []string
+	add := func(s string) {
+		if !seen[s] {
+			seen[s] = true
+			out = append(out, s)
+		}
+	}
+	for L := 0; L <= 3; L++ {
+		enumFixed(alpha23, L, nil, add)
+	}
+	for _, s := range boundaryList(!quick) {
+		add(s)
+	}
+	return out
+}
+
+const agreeExpr = `$t=typeof($x); $ii=is_int($x); $if=is_float($x); $in=is_numeric($x); $is=is_string($x); $ie=is_empty($x); $ine=is_not_empty($x); $inl=is_null($x); $inn=is_not_null($x);` +
+	`$tp=typeof($x+0);` +
+	`$d=is_int($x) ? "<".fmtnum($x,"%d").">" : "NA";` +
+	`$q=is_int($x+0) ? "<".fmtnum($x+0,"%d").">" : "NA";` +
+	`$g=is_float($x) ? "<".fmtnum($x,"%.17e").">" : "NA";` +
+	`$p=is_float($x+0) ? "<".fmtnum($x+0,"%.17e").">" : "NA";` +
+	`$c="<".$x.">"; unset $x`
+
+type cliState struct {
+	w     *vf.Worker
+	mode  int
+	flag  string
+	flags map[string]int64
+	verbs map[string]int64
+	pos   map[string]int64
+	law   map[string]string
+}
+
+func (st *cliState) args(rest ...string) []string {
+	if st.flag == "" {
+		return rest
+	}
+	return append([]string{st.flag}, rest...)
+}
+
+func (st *cliState) viol(grp, pos, s, what string, replay map[string]any) {
+	m := modeNames[st.mode]
+	if replay == nil {
+		replay = map[string]any{}
+	}
+	replay["mode"], replay["flag"], replay["position"], replay["value"] = m, st.flag, pos, s
+	st.w.Violation(fmt.Sprintf("%s:%s:%s:%s", grp, m, pos, q(s)), fmt.Sprintf("mode %s, %s: %s: %s", m, pos, q(s), what), replay)
+}
+
+func parseBracket(s string) (string, bool) {
+	if len(s) >= 2 && s[0] == '<' && s[len(s)-1] == '>' {
+		return s[1 : len(s)-1], true
+	}
+	return "", false
+}
+
+// obs: what typeof / fmtnum say about a value in one CLI position: the single
+// classification every other clause has to agree with.
+type obs struct {
+	ok   bool
+	kind kind
+	i    int64
+	f    float64
+}
+
+// checkRecord compares one output record of agreeExpr with the reference classification
+// (groups infer/bigdec/minint) and checks that all fields of the record agree among themselves (group agree).
+func (st *cliState) checkRecord(pos, s string, exp cls, rec map[string]any) (o obs) {
+	str := func(k string) string { v, _ := rec[k].(string); return v }
+	boolean := func(k string) (bool, bool) { v, ok := rec[k].(bool); return v, ok }
+	t := str("t")
+	var k kind
+	switch t {
+	case "int":
+		k = kInt
+	case "float":
+		k = kFloat
+	case "string":
+		k = kString
+	case "empty":
+		k = kEmpty
+	case "boolean":
+		k = kBool
+	default:
+		st.viol("agree", pos, s, fmt.Sprintf("typeof gives %q", t), nil)
+		return
+	}
+	o.kind = k
+	o.ok = true
+	fail := func(grp, what string) {
+		st.viol(grp, pos, s, what+fmt.Sprintf(" [documented: %s, category %s]", exp, catNames[exp.cat]), map[string]any{"record": rec, "expected": exp.String()})
+	}
+	// 1. classification by typeof against the reference
+	switch exp.kind {
+	case kString, kEmpty, kInt, kFloat, kBool:
+		if k != exp.kind {
+			fail(group(exp), fmt.Sprintf("typeof is %s", t))
+		}
+	case kNumAny:
+		if k != kInt && k != kFloat {
+			fail(group(exp), fmt.Sprintf("typeof is %s", t))
+		}
+	}
+	// 2. values
+	if k == kInt {
+		d, ok1 := parseBracket(str("d"))
+		qv, ok2 := parseBracket(str("q"))
+		if !ok1 || !ok2 || d != qv || str("tp") != "int" {
+			fail("agree", fmt.Sprintf("int but fmtnum(%%d)=%q, $x+0 -> %q (%s)", str("d"), str("q"), str("tp")))
+			o.ok = false
+		} else {
+			iv, err := strconv.ParseInt(d, 10, 64)
+			o.i = iv
+			if err != nil {
+				fail("agree", "int but fmtnum(%d) gives "+d)
+				o.ok = false
+			} else if (exp.kind == kInt || exp.kind == kNumAny) && iv != exp.i {
+				fail(group(exp), "int value is "+d)
+			}
+		}
+	}
+	if k == kFloat {
+		g, ok1 := parseBracket(str("g"))
+		p, ok2 := parseBracket(str("p"))
+		gf, e1 := strconv.ParseFloat(g, 64)
+		pf, e2 := strconv.ParseFloat(p, 64)
+		if !ok1 || !ok2 || e1 != nil || e2 != nil || gf != pf || str("tp") != "float" {
+			fail("agree", fmt.Sprintf("float but fmtnum(%%.17e)=%q, $x+0 -> %q (%s)", str("g"), str("p"), str("tp")))
+			o.ok = false
+		} else {
+			o.f = gf
+			if (exp.kind == kFloat || exp.kind == kNumAny) && gf != exp.f {
+				fail(group(exp), "float value is "+g)
+			}
+		}
+	}
+	if k == kString && str("tp") != "error" {
+		fail("agree", fmt.Sprintf("string but $x+0 has type %s", str("tp")))
+	}
+	// 3. predicates agree with the single classification
+	isNum := k == kInt || k == kFloat
+	for _, p := range []struct {
+		f    string
+		want bool
+	}{{"ii", k == kInt}, {"if", k == kFloat}, {"in", isNum}, {"is", k == kString || k == kEmpty}, {"ie", k == kEmpty}, {"ine", k != kEmpty}, {"inl", k == kEmpty}, {"inn", k != kEmpty}} {
+		if b, ok := boolean(p.f); !ok || b != p.want {
+			fail("agree", fmt.Sprintf("typeof is %s but predicate field %s = %v", t, p.f, rec[p.f]))
+		}
+	}
+	// 4. spelling preserved through the dot operator
+	if c, ok := parseBracket(str("c")); !ok || c != s {
+		fail("spelling", fmt.Sprintf("$x . \"\" gives %q", str("c")))
+	}
+	return o
+}
+
+func decodeJSONRecords(out string) ([]map[string]any, error) {
+	dec := json.NewDecoder(strings.NewReader(out))
+	dec.UseNumber()
+	var recs []map[string]any
+	if err := dec.Decode(&recs); err != nil {
+		return nil, err
+	}
+	return recs, nil
+}
+
+// batch runs agreeExpr over one input holding all strings of a chunk (one record
+// each). mk builds the input for a sub-list, so that a failing run can be
+// attributed to single strings by re-running them alone.
+func (st *cliState) batch(pos string, ss []string, exps []cls, mk func(ss []string) string, ifmt string) []obs {
+	if len(ss) == 0 {
+		return nil
+	}
+	input := mk(ss)
+	r := vf.RunMlr(st.args(ifmt, "--ojson", "put", agreeExpr), vf.MlrOpts{Stdin: &input})
+	st.w.Eval(int64(len(ss)))
+	st.pos[pos] += int64(len(ss))
+	st.verbs["put"]++
+	if st.flag != "" {
+		st.flags[st.flag]++
+	}
+	st.flags[ifmt]++
+	var recs []map[string]any
+	var err error
+	if r.OK() {
+		recs, err = decodeJSONRecords(r.Stdout)
+	}
+	if !r.OK() || err != nil || len(recs) != len(ss) {
+		if len(ss) == 1 {
+			st.viol("run", pos, ss[0], fmt.Sprintf("mlr %s fails or prints something else than one record: %s (%v)", strings.Join(st.args(ifmt, "--ojson", "put", "..."), " "), r.String(), err), map[string]any{"input": input, "stdout": r.Stdout})
+			return []obs{{}}
+		}
+		out := make([]obs, 0, len(ss))
+		for i := range ss {
+			out = append(out, st.batch(pos, ss[i:i+1], exps[i:i+1], mk, ifmt)...)
+		}
+		return out
+	}
+	out := make([]obs, len(ss))
+	for i, s := range ss {
+		out[i] = st.checkRecord(pos, s, exps[i], recs[i])
+		if exps[i].kind != kString {
+			st.w.Nontrivial(1)
+		}
+	}
+	return out
+}
+
+var assertFns = []struct {
+	name string
+	want func(k kind) bool
+}{
+	{"asserting_int", func(k kind) bool { return k == kInt }},
+	{"asserting_float", func(k kind) bool { return k == kFloat }},
+	{"asserting_numeric", func(k kind) bool { return k == kInt || k == kFloat }},
+	{"asserting_string", func(k kind) bool { return k == kString || k == kEmpty }},
+	{"asserting_empty", func(k kind) bool { return k == kEmpty }},
+	{"asserting_not_null", func(k kind) bool { return k != kEmpty }},
+}
+
+func (st *cliState) kOrder(r vf.MlrResult) string {
+	var ks []string
+	for _, ln := range strings.Split(strings.TrimSpace(r.Stdout), "\n") {
+		if i := strings.Index(ln, "k="); i == 0 {
+			j := strings.IndexByte(ln, ',')
+			if j < 0 {
+				j = len(ln)
+			}
+			ks = append(ks, ln[2:j])
+		}
+	}
+	return strings.Join(ks, "")
+}
+
+func (st *cliState) sortRun(flag string, xs []string) (string, vf.MlrResult) {
+	var sb strings.Builder
+	for i, x := range xs {
+		fmt.Fprintf(&sb, "k=%d,x=%s\n", i+1, x)
+	}
+	in := sb.String()
+	r := vf.RunMlr(st.args("sort", flag, "x"), vf.MlrOpts{Stdin: &in})
+	st.w.Eval(1)
+	st.verbs["sort "+flag]++
+	return st.kOrder(r), r
+}
+
+func fmtSentinel(mv *mlrval.Mlrval) string {
+	if mv == nil {
+		return ""
+	}
+	if iv, ok := mv.GetIntValue(); ok {
+		return strconv.FormatInt(iv, 10)
+	}
+	fv, _ := mv.GetFloatValue()
+	s := strconv.FormatFloat(fv, 'e', -1, 64)
+	return s
+}
+
+// expected classification of the sentinel spelling itself must be what we think (guards the harness)
+func sentinelOK(s string, mode int) bool {
+	c := classify(s, mode)
+	return c.kind == kInt || c.kind == kFloat
+}
+
+func (st *cliState) sortClause(s string, o obs) {
+	if st.mode == modeS || !o.ok {
+		return // -S: every value is a string: numeric sort has nothing documented to order by
+	}
+	switch o.kind {
+	case kInt, kFloat:
+		var ref *mlrval.Mlrval
+		var val string
+		if o.kind == kInt {
+			ref = mlrval.FromInt(o.i)
+			val = fmt.Sprintf("int %d", o.i)
+		} else {
+			if math.IsInf(o.f, 0) || math.IsNaN(o.f) {
+				return
+			}
+			ref = mlrval.FromFloat(o.f)
+			val = "float " + strconv.FormatFloat(o.f, 'g', -1, 64)
+		}
+		lo, hi := sentinels(ref)
+		los, his := fmtSentinel(lo), fmtSentinel(hi)
+		if los == "" || his == "" || !sentinelOK(los, st.mode) || !sentinelOK(his, st.mode) {
+			return
+		}
+		st.pos["sort"]++
+		st.w.Nontrivial(1)
+		if got, r := st.sortRun("-nf", []string{his, s, los}); got != "321" {
+			st.viol("sort", "sort -nf", s, fmt.Sprintf("records x=%s, x=%s, x=%s come out in k-order %q, expected 3,2,1 (typeof/fmtnum say the value is %s); %s", his, s, los, got, val, r.Stderr), map[string]any{"lo": los, "hi": his})
+		}
+		if got, r := st.sortRun("-nr", []string{los, s, his}); got != "321" {
+			st.viol("sort", "sort -nr", s, fmt.Sprintf("records x=%s, x=%s, x=%s come out in k-order %q, expected 3,2,1 (typeof/fmtnum say the value is %s); %s", los, s, his, got, val, r.Stderr), map[string]any{"lo": los, "hi": his})
+		}
+	case kEmpty:
+		st.pos["sort"]++
+		if got, _ := st.sortRun("-nf", []string{"2", s, "1"}); got != "312" {
+			st.viol("sort", "sort -nf", s, fmt.Sprintf("empty value: k-order %q, usage says nulls sort last (expected 3,1,2)", got), nil)
+		}
+		if got, _ := st.sortRun("-nr", []string{"1", s, "2"}); got != "231" {
+			st.viol("sort", "sort -nr", s, fmt.Sprintf("empty value: k-order %q, usage says nulls sort first (expected 2,3,1)", got), nil)
+		}
+	case kString:
+		// law on the real code: a value classified as string is placed like any other string; numbers stay ordered
+		st.pos["sort"]++
+		for _, f := range []string{"-nf", "-nr"} {
+			if _, ok := st.law[f]; !ok {
+				st.law[f], _ = st.sortRun(f, []string{"2", "abc", "1", "3"})
+			}
+			got, _ := st.sortRun(f, []string{"2", s, "1", "3"})
+			if got != st.law[f] {
+				st.viol("sort", "sort "+f, s, fmt.Sprintf("typeof says string, but records x=2, x=%s, x=1, x=3 come out in k-order %q whereas with x=abc in its place the order is %q", s, got, st.law[f]), nil)
+			}
+			// records are k=3 (x=1), k=1 (x=2), k=4 (x=3)
+			i1, i2, i3 := strings.Index(got, "3"), strings.Index(got, "1"), strings.Index(got, "4")
+			if (f == "-nf" && !(i1 < i2 && i2 < i3)) || (f == "-nr" && !(i1 > i2 && i2 > i3)) || i1 < 0 || i2 < 0 || i3 < 0 {
+				st.viol("sort", "sort "+f, s, fmt.Sprintf("numeric records 1,2,3 are not in numeric order around a string value: k-order %q", got), nil)
+			}
+		}
+	}
+}
+
+// DSL literal position (default mode): only spellings the documented DSL number syntax
+// shares with the data grammar: unsigned decimal ints without leading zero, 0x hex, floats.
+func literalEligible(s string) bool {
+	if s == "" || !(isDec(s[0]) || s[0] == '.') {
+		return false
+	}
+	if len(s) >= 2 && s[0] == '0' {
+		if s[1] == 'x' {
+			return true
+		}
+		if s[1] != '.' && s[1] != 'e' && s[1] != 'E' {
+			return false // leading zero ints, 0o/0b/0X: DSL syntax not documented as identical
+		}
+	}
+	for i := 0; i < len(s); i++ {
+		if !(isDec(s[i]) || strings.IndexByte(".eE+-", s[i]) >= 0) {
+			return s[1] == 'x'
+		}
+	}
+	return true
+}
+
+func (st *cliState) literalClause(s string, exp cls) {
+	if st.mode != modeDefault || !literalEligible(s) {
+		return
+	}
+	if exp.kind != kInt && exp.kind != kFloat && exp.kind != kFree {
+		return
+	}
+	prog := fmt.Sprintf(`end{print typeof(%s); print is_int(%s) ? fmtnum(%s,"%%d") : is_float(%s) ? fmtnum(%s,"%%.17e") : "NA";}`, s, s, s, s, s)
+	r := vf.RunMlr([]string{"-n", "put", prog}, vf.MlrOpts{})
+	st.w.Eval(1)
+	st.pos["dsl-literal"]++
+	st.w.Nontrivial(1)
+	lines := strings.Split(strings.TrimSpace(r.Stdout), "\n")
+	rep := map[string]any{"program": prog, "expected": exp.String(), "stdout": r.Stdout, "stderr": r.Stderr, "exit": r.Exit, "reproduce": "mlr -n put '" + prog + "'"}
+	if !r.OK() || len(lines) != 2 || strings.Contains(r.Stderr, "nternal coding error") {
+		what := fmt.Sprintf("as a DSL literal: exit %d, stdout %q, stderr %q %s; documented grammar: %s", r.Exit, r.Stdout, strings.TrimSpace(r.Stderr), r.Panic, exp)
+		grp := "literal"
+		if exp.kind == kFree {
+			grp = "literalcrash" // the documentation does not fix type/value here, but an internal-error abort is not an answer
+		}
+		st.viol(grp, "dsl-literal", s, what, rep)
+		return
+	}
+	switch exp.kind {
+	case kInt:
+		if lines[0] != "int" || lines[1] != strconv.FormatInt(exp.i, 10) {
+			st.viol("literal", "dsl-literal", s, fmt.Sprintf("as a DSL literal is %s %s; documented grammar: %s", lines[0], lines[1], exp), rep)
+		}
+	case kFloat:
+		f, err := strconv.ParseFloat(lines[1], 64)
+		if lines[0] != "float" || err != nil || f != exp.f {
+			st.viol("literal", "dsl-literal", s, fmt.Sprintf("as a DSL literal is %s %s; documented grammar: %s", lines[0], lines[1], exp), rep)
+		}
+	}
+}
+
+func cliWorker(w *vf.Worker) {
+	ss := cliStrings(w.Quick())
+	st := &cliState{w: w, flags: map[string]int64{}, verbs: map[string]int64{}, pos: map[string]int64{}}
+	nChunks := (len(ss) + cliChunk - 1) / cliChunk
+	nShort := 1 + len(alpha23) + len(alpha23)*len(alpha23) // enumeration strings of length <= 2 come first
+	for ci := 0; ci < nChunks; ci++ {
+		for mode := 0; mode < nModes; mode++ {
+			idx := uint64(ci*nModes + mode)
+			if !w.Mine(idx) {
+				continue
+			}
+			w.Begin(idx)
+			lo, hi := ci*cliChunk, (ci+1)*cliChunk
+			if hi > len(ss) {
+				hi = len(ss)
+			}
+			chunk := ss[lo:hi]
+			w.Label(func() string {
+				return fmt.Sprintf("mode %s strings %d..%d (%q ...)", modeNames[mode], lo, hi, chunk[0])
+			})
+			st.mode = mode
+			st.flag = modeFlags[mode][ci%len(modeFlags[mode])]
+			st.law = map[string]string{}
+			exps := make([]cls, len(chunk))
+			for i, s := range chunk {
+				exps[i] = classify(s, mode)
+			}
+			// batch agreement per position
+			mkDkvp := func(ss []string) string {
+				var b strings.Builder
+				for _, s := range ss {
+					b.WriteString("x=" + s + "\n")
+				}
+				return b.String()
+			}
+			mkSep := func(sep string) func(ss []string) string {
+				return func(ss []string) string {
+					var b strings.Builder
+					b.WriteString("x" + sep + "k\n")
+					for i, s := range ss {
+						fmt.Fprintf(&b, "%s%s%d\n", s, sep, i)
+					}
+					return b.String()
+				}
+			}
+			mkJSONNum := func(ss []string) string {
+				var b strings.Builder
+				for _, s := range ss {
+					b.WriteString(`{"x":` + s + "}\n")
+				}
+				return b.String()
+			}
+			mkJSONStr := func(ss []string) string {
+				var b strings.Builder
+				for _, s := range ss {
+					q, _ := json.Marshal(s)
+					b.WriteString(`{"x":` + string(q) + "}\n")
+				}
+				return b.String()
+			}
+			dobs := st.batch("dkvp", chunk, exps, mkDkvp, "--idkvp")
+			st.batch("csv", chunk, exps, mkSep(","), "--icsv")
+			st.batch("csvlite", chunk, exps, mkSep(","), "--icsvlite")
+			st.batch("tsv", chunk, exps, mkSep("\t"), "--itsv")
+			var jns []string
+			var jne, jse []cls
+			for i, s := range chunk {
+				if validJSONNumber(s) {
+					jns = append(jns, s)
+					jne = append(jne, exps[i])
+				}
+				want := cls{kind: kString}
+				if s == "" {
+					want = cls{kind: kEmpty, cat: catEmpty}
+				}
+				jse = append(jse, want)
+			}
+			st.batch("json-number", jns, jne, mkJSONNum, "--ijson")
+			st.batch("json-string", chunk, jse, mkJSONStr, "--ijson")
+			// per-string clauses on the DKVP position, judged against the classification typeof reported there
+			for i, s := range chunk {
+				if dobs != nil && dobs[i].ok {
+					o := dobs[i]
+					in := "x=" + s + "\n"
+					for ai, a := range assertFns {
+						if w.Quick() && len(s) == 3 && lo+i >= nShort && ai%3 != (lo+i)%3 {
+							continue // quick tier: length-3 enumeration strings get a rotating pair of the six assertions
+						}
+						r := vf.RunMlr(st.args("put", "-q", a.name+"($x)"), vf.MlrOpts{Stdin: &in})
+						w.Eval(1)
+						st.pos["asserting"]++
+						st.verbs[a.name]++
+						want := a.want(o.kind)
+						passed := r.Exit == 0 && r.Panic == ""
+						failedCleanly := r.Exit == 1 && r.Panic == "" && strings.Contains(r.Stderr, "type-assertion failed")
+						if (want && !passed) || (!want && !failedCleanly) {
+							st.viol("asserting", a.name, s, fmt.Sprintf("typeof says %s, so %s should %s; got %s", o.kind, a.name, map[bool]string{true: "pass", false: "abort with a type-assertion failure"}[want], r.String()), nil)
+						}
+					}
+					st.sortClause(s, o)
+				}
+				st.literalClause(s, exps[i])
+			}
+		}
+	}
+	for k, n := range st.flags {
+		w.Count("cli-flag:"+k, n)
+	}
+	for k, n := range st.verbs {
+		w.Count("cli-verb-or-function:"+k, n)
+	}
+	for k, n := range st.pos {
+		w.Count("cli-position:"+k, n)
+	}
+	if w.Shard == 0 {
+		w.Sample(map[string]any{"cli": "mlr -O --icsv --ojson put '" + agreeExpr[:60] + "...'", "strings": len(ss)})
+	}
+}
+
+// ---------------------------------------------------------------- orchestrator
+
+func run(c *vf.Ctx) {
+	b := tierBounds(c.Quick())
+	c.Rule = fmt.Sprintf("every string of length <= %d over the 23-symbol alphabet %q, every string of length %d..%d over the 11-symbol alphabet %q, (thorough: plus length 9 when the time budget allows, see 'extension'), and a generated boundary list (2^k, 2^k+-1 for k<=65 in radix 2/8/10/16 with each sign, int64/uint64/double limits, 16-digit hex with each leading nibble, the spellings named in the design, an exhaustive product of sign x int x frac x exp x suffix fragments), each under the 4 inference modes {default,-S,-A,-O}; positions: data field (direct inferrer call), JSON number (RFC-8259-valid spellings) and, for length <= %d and the boundary list, JSON string plus the direct typeof/is_*/+/./collation agreement clause. CLI pass (in-process mlr): all strings of length <= 3 and the boundary list x 4 modes through DKVP, CSV, CSV-lite, TSV, JSON-number, JSON-string with typeof/is_*/fmtnum/$x+0/dot, 6 asserting_* functions, sort -nf/-nr, and DSL literals. A (string, mode, position) case is non-trivial when the reference classifies it as anything but string or when the string starts with a digit, sign or point (it enters the scanner's number states); all cases are distinct by construction.",
+		b.full23, string(alpha23), b.full23+1, b.max11, string(alpha11), b.deep23)
+	c.Assume("alphabet thinning: digits 2-6 behave like 1/7, hex letters c d (and A-E) like a f F; other bytes (beyond the boundary list's samples) are not enumerated")
+	c.Assume("unconstrained by the documentation, counted but only checked for mutual consistency and absence of panics: float forms whose magnitude exceeds the double range (1e309), hex magnitudes outside int64 that are not the 16-digit two's-complement form, negated 16-digit two's-complement hex, 0o/0b/-O-leading-zero magnitudes outside int64")
+	c.Assume("-O with a leading-zero integer containing 8 or 9: reference-main-arithmetic.md and new-in-miller-6.md say decimal int, the flag help says float; both accepted, value asserted")
+	c.Assume("a leading + is accepted as a sign like - (property statement: 'signed'), also in front of 0x/0o/0b; upper-case prefixes 0X/0O/0B and upper-case exponent E count like the lower-case ones; signed zero of floats is not asserted")
+	c.Assume("combinations of -S/-A/-O are not explored (the documentation does not define precedence); empty + 0 is left to C08; sort -n under -S is not asserted; placement of strings relative to numbers under sort -n is asserted only as a law (same as any other string)")
+	c.Assume("DSL literal position: default mode only and only spellings whose DSL syntax is documented identically to data (unsigned decimal ints without leading zero, lower-case 0x hex, float forms); binary/octal/upper-case prefixes, leading-zero ints and signed literals (unary operators) are excluded")
+	c.Assume("'random longer strings' of the quantifier are replaced by the deterministic fragment product; nothing is sampled")
+	c.Assume("JSON number position covers only RFC-8259-valid spellings (others are rejected by the JSON parser: C01/C17)")
+
+	res := c.RunPool(vf.PoolSpec{Worker: "bulk", Shards: 256, Args: map[string]string{"part": "main"}})
+	c.RunPool(vf.PoolSpec{Worker: "cli", Shards: 192})
+	if !c.Quick() {
+		// optional extension of the thorough tier: one more length over the 11-symbol alphabet, only when
+		// the main enumeration left enough of the 15-minute budget (coverage only, never a verdict)
+		// (main + CLI take about 1 minute on 16 idle cores and the extension about 4; if the first part needed
+		// more than 3 minutes the machine is shared and the extension would break the 15-minute limit)
+		c.SetBudget(3 * time.Minute)
+		if c.OverBudget() {
+			c.Exhaustive = false
+			c.Extra["inexhaustive"] = []string{fmt.Sprintf("time budget: strings of length %d over the 11-symbol alphabet were not enumerated; everything named in the rule up to length %d was completed", extLen11, b.max11)}
+		} else {
+			r2 := c.RunPool(vf.PoolSpec{Worker: "bulk", Shards: 512, Args: map[string]string{"part": "ext"}})
+			for k := range r2.Sets["outcomes"] {
+				if res.Sets["outcomes"] == nil {
+					res.Sets["outcomes"] = map[string]bool{}
+				}
+				res.Sets["outcomes"][k] = true
+			}
+			c.Extra["extension"] = fmt.Sprintf("all strings of length %d over the 11-symbol alphabet (data + JSON-number positions, 4 modes) completed", extLen11)
+		}
+	}
+
+	// evidence: hit counts per symbol / category / mode / position / flag
+	per := func(prefix string) map[string]int64 {
+		m := map[string]int64{}
+		for k, v := range c.Counters {
+			if strings.HasPrefix(k, prefix) {
+				m[strings.TrimPrefix(k, prefix)] = v
+			}
+		}
+		return m
+	}
+	for _, p := range []string{"symbol-occurrences:", "symbol-occurrences-in-numeric:", "category:", "unconstrained:", "mode:", "position:", "cli-flag:", "cli-verb-or-function:", "cli-position:"} {
+		m := per(p)
+		c.Extra[strings.TrimSuffix(p, ":")] = m
+		for k := range m {
+			delete(c.Counters, p+k)
+		}
+	}
+	c.Extra["distinct_outcomes(mode:position:category->type)"] = vf.SortedSet(res, "outcomes")
+	c.Extra["boundary_list_size"] = len(boundaryList(true))
+	c.Extra["cli_strings"] = len(cliStrings(c.Quick()))
+	c.Extra["bulk_blocks"] = len(blocks(c.Quick()))
+	// vacuity guards
+	sym := per("symbol-occurrences:")
+	_ = sym
+	symc := c.Extra["symbol-occurrences"].(map[string]int64)
+	for _, a := range alpha23 {
+		if symc[q(string(rune(a)))] == 0 {
+			c.Broken("alphabet symbol %q never exercised", string(rune(a)))
+		}
+	}
+	cats := c.Extra["category"].(map[string]int64)
+	var missing []string
+	for i := 0; i < nCats; i++ {
+		if cats[catNames[i]] == 0 {
+			missing = append(missing, catNames[i])
+		}
+	}
+	sort.Strings(missing)
+	if len(missing) > 0 {
+		c.Broken("grammar categories never exercised: %v", missing)
+	}
+}
